@@ -442,5 +442,5 @@ def check_program(c, rec):
 
 def subchecks():
     return [SubCheck("programs", check_program, programs, quick=600, thorough=0, shards_quick=8, shards_thorough=1),
-            SubCheck("programs_long", check_program, lambda: programs(40), quick=0, thorough=1500, shards_quick=1,
+            SubCheck("programs_long", check_program, lambda: programs(40), quick=0, thorough=5000, shards_quick=1,
                      shards_thorough=16)]
